@@ -695,7 +695,7 @@ class Extractor:
                     rep = '{ %slet __r14_%d_r = crate::vp::r14_res({%s}); __r14_%d_r? }' % (lets, K, body, K); end = a + 1
                 elif not has_try and not h['has_q'] and not h['has_ret']:
                     rep = '{ %s{%s} }' % (lets, body); end = pc + 1
-                elif in_tail and not any(x.kind == 'punct' and x.text == '|' for x in tokenize(body)):
+                elif in_tail:
                     # returning from the helper IS returning from the caller here, so `?` and `return` keep their meaning
                     rep = '{ %s%s }' % (lets, body); end = pc + 1
                 else:
